@@ -578,6 +578,29 @@ class _Idioms(ast.NodeTransformer):
                 n.right = ast.Constant(-r.value)
         return n
 
+    def visit_Compare(self, n):
+        self.generic_visit(n)
+        # None is None / None is not None (left behind by inlining a helper called with a literal None)
+        if len(n.ops) == 1 and isinstance(n.ops[0], (ast.Is, ast.IsNot)) and _is_const(n.left, None) and _is_const(n.comparators[0], None):
+            return ast.copy_location(ast.Constant(isinstance(n.ops[0], ast.Is)), n)
+        return n
+
+    def visit_Lambda(self, n):
+        self.generic_visit(n)
+        # factories: lambda: [] -> list, lambda: {} -> dict, lambda: set() -> set, lambda: 0 -> int
+        a = n.args
+        if not (a.args or a.posonlyargs or a.kwonlyargs or a.vararg or a.kwarg):
+            b = n.body
+            if isinstance(b, ast.List) and not b.elts:
+                return ast.copy_location(ast.Name(id="list", ctx=ast.Load()), n)
+            if isinstance(b, ast.Dict) and not b.keys:
+                return ast.copy_location(ast.Name(id="dict", ctx=ast.Load()), n)
+            if isinstance(b, ast.Call) and isinstance(b.func, ast.Name) and b.func.id in ("set", "list", "dict") and not b.args and not b.keywords:
+                return ast.copy_location(ast.Name(id=b.func.id, ctx=ast.Load()), n)
+            if isinstance(b, ast.Constant) and b.value == 0 and isinstance(b.value, int) and not isinstance(b.value, bool):
+                return ast.copy_location(ast.Name(id="int", ctx=ast.Load()), n)
+        return n
+
     def visit_Subscript(self, n):
         self.generic_visit(n)
         # list(X)[0] -> next(iter(X))   (first element in iteration order)
@@ -589,6 +612,11 @@ class _Idioms(ast.NodeTransformer):
 
     def visit_Call(self, n):
         self.generic_visit(n)
+        # len([e for ...]) -> sum(1 for ...)   (e pure: it is not evaluated in the second form)
+        if isinstance(n.func, ast.Name) and n.func.id == "len" and len(n.args) == 1 and isinstance(n.args[0], ast.ListComp) \
+                and is_pure(n.args[0].elt):
+            return ast.copy_location(ast.Call(func=ast.Name(id="sum", ctx=ast.Load()), args=[
+                ast.GeneratorExp(elt=ast.Constant(1), generators=n.args[0].generators)], keywords=[]), n)
         # networkx: G.order() == G.number_of_nodes() == len(G)
         if isinstance(n.func, ast.Attribute) and n.func.attr in ("order", "number_of_nodes") and not n.args and not n.keywords:
             return ast.copy_location(ast.Call(func=ast.Name(id="len", ctx=ast.Load()), args=[n.func.value], keywords=[]), n)
@@ -742,7 +770,7 @@ def control_flow(fn):
     """C4 on every function scope below fn."""
     for f in [n for n in ast.walk(fn) if isinstance(n, ast.FunctionDef)]:
         for _ in range(8):
-            a = _tail_into_breaks(f) | _continue_guards(f)
+            a = _tail_into_breaks(f) | _continue_guards(f) | _counter_loops(f)
             b = _orient(f)
             _flatten_else(f)
             c = _orient_exits(f)
@@ -784,6 +812,56 @@ def _continue_guards(scope):
     for loop in [n for n in ast.walk(scope) if isinstance(n, (ast.For, ast.While))]:
         process(loop.body)
     return changed
+
+
+def _counter_loops(scope):
+    """`i = 0 ... while i < N: B; i += 1`  ->  `for i in range(N): B`   when i is only changed by that one increment (at the
+    top level of the body, with no read of i after it in the body), the body has no `continue`/`break`, N (`len(X)` or a
+    name) is not changed in the body, and i is not read after the loop."""
+    changed = False
+    for owner, fld in _scope_blocks(scope):
+        body = getattr(owner, fld)
+        for k, w in enumerate(body):
+            if not (isinstance(w, ast.While) and not w.orelse and isinstance(w.test, ast.Compare) and len(w.test.ops) == 1
+                    and isinstance(w.test.ops[0], ast.Lt) and isinstance(w.test.left, ast.Name)):
+                continue
+            i = w.test.left.id
+            bound = w.test.comparators[0]
+            if not (isinstance(bound, ast.Name) or (isinstance(bound, ast.Call) and _chain(bound.func) == "len" and len(bound.args) == 1
+                                                    and isinstance(bound.args[0], ast.Name))):
+                continue
+            incs = [j for j, st in enumerate(w.body) if isinstance(st, ast.AugAssign) and isinstance(st.target, ast.Name) and st.target.id == i
+                    and isinstance(st.op, ast.Add) and _is_const_int(st.value, 1)]
+            if len(incs) != 1:
+                continue
+            j = incs[0]
+            stores_i = [n for n in _scope_nodes(scope) if isinstance(n, ast.Name) and n.id == i and isinstance(n.ctx, (ast.Store, ast.Del))]
+            inits = [st for st in body[:k] if isinstance(st, ast.Assign) and len(st.targets) == 1 and isinstance(st.targets[0], ast.Name)
+                     and st.targets[0].id == i and _is_const_int(st.value, 0)]
+            if len(stores_i) != 2 or len(inits) != 1:
+                continue
+            init_at = body.index(inits[0])
+            if any(isinstance(n, ast.Name) and n.id == i for st in body[init_at + 1:k] for n in ast.walk(st)):
+                continue
+            if any(isinstance(n, (ast.Continue, ast.Break, ast.Return)) for st in w.body for n in ast.walk(st)):
+                continue
+            if any(isinstance(n, ast.Name) and n.id == i for st in w.body[j + 1:] for n in ast.walk(st)):
+                continue
+            if any(isinstance(n, ast.Name) and n.id == i for st in body[k + 1:] for n in ast.walk(st)):
+                continue
+            bn = bound.id if isinstance(bound, ast.Name) else bound.args[0].id
+            if _invalidates(_mutations(ast.Module(body=w.body, type_ignores=[])), bound, "\0") or bn == i:
+                continue
+            new_body = w.body[:j] + w.body[j + 1:]
+            body[k] = ast.copy_location(ast.For(target=ast.Name(id=i, ctx=ast.Store()),
+                                                iter=ast.Call(func=ast.Name(id="range", ctx=ast.Load()), args=[bound], keywords=[]),
+                                                body=new_body or [ast.Pass()], orelse=[], type_comment=None), w)
+            changed = True
+    return changed
+
+
+def _is_const_int(e, v):
+    return isinstance(e, ast.Constant) and isinstance(e.value, int) and not isinstance(e.value, bool) and e.value == v
 
 
 def _positive(test):
@@ -1119,8 +1197,89 @@ def _mutations(node):
     return out
 
 
+_ALIAS = [{}]      # name -> frozenset of local names that may denote (part of) the same object, for the function in work
+
+
+def alias_classes(fn):
+    """Names related by `a = b`, `a = b.attr`, `a = b[i]`, `a = b if c else d`, tuple unpacking of such, and `for a in b`
+    (an element of b) may denote the same object or a part of it.  Parameters are taken to be distinct objects."""
+    parent = {}
+
+    def find(x):
+        while parent.get(x, x) != x:
+            parent[x] = parent.get(parent[x], parent[x])
+            x = parent[x]
+        return x
+
+    def union(a, b):
+        a, b = find(a), find(b)
+        if a != b:
+            parent[a] = b
+
+    def roots(e):
+        if isinstance(e, ast.Name):
+            return [e.id]
+        if isinstance(e, (ast.Attribute, ast.Subscript, ast.Starred)):
+            return roots(e.value)
+        if isinstance(e, ast.IfExp):
+            return roots(e.body) + roots(e.orelse)
+        if isinstance(e, ast.BoolOp):
+            return [r for v in e.values for r in roots(v)]
+        if isinstance(e, (ast.Tuple, ast.List)):
+            return [r for v in e.elts for r in roots(v)]
+        if isinstance(e, ast.Call) and isinstance(e.func, ast.Attribute) and e.func.attr in ("get", "items", "values", "keys", "pop", "setdefault", "__getitem__"):
+            return roots(e.func.value)
+        if isinstance(e, ast.Call) and _chain(e.func) in ("iter", "next", "reversed", "enumerate", "zip", "sorted", "list", "tuple", "max", "min"):
+            return [r for a in e.args for r in roots(a)]       # elements are shared
+        return []
+    for n in ast.walk(fn):
+        tgts = val = None
+        if isinstance(n, ast.Assign):
+            tgts, val = n.targets, n.value
+        elif isinstance(n, ast.For):
+            tgts, val = [n.target], n.iter
+        elif isinstance(n, ast.comprehension):
+            tgts, val = [n.target], n.iter
+        elif isinstance(n, ast.NamedExpr):
+            tgts, val = [n.target], n.value
+        elif isinstance(n, ast.withitem) and n.optional_vars is not None:
+            tgts, val = [n.optional_vars], n.context_expr
+        if tgts is None:
+            continue
+        rs = roots(val)
+        for t in tgts:
+            for x in ast.walk(t):
+                if isinstance(x, ast.Name) and isinstance(x.ctx, ast.Store):
+                    for r in rs:
+                        union(x.id, r)
+    classes = {}
+    for x in list(parent):
+        classes.setdefault(find(x), set()).add(x)
+    out = {}
+    for c in classes.values():
+        fc = frozenset(c)
+        for x in c:
+            out[x] = fc
+    return out
+
+
+def _aliased(name):
+    return _ALIAS[0].get(name, (name,))
+
+
 def _invalidates(muts, e, x):
     """May the effects `muts` change what expression e (bound to name x) evaluates to, or rebind x?"""
+    if _ALIAS[0]:
+        # an effect on an object reached through another name of the same alias class counts as an effect on every name
+        # of the class (coarse: any read rooted at an aliased name is taken to be affected)
+        en = _names(e)
+        for kind, pay in muts:
+            base = pay if kind in ("bind", "unknown") else pay[0]
+            if kind == "bind":
+                continue
+            for other in _aliased(base):
+                if other != base and other in en:
+                    return True
     pe = _path(e)
     if pe is None and not isinstance(e, ast.Name):
         # a compound expression changes only if one of the maximal name/attribute/subscript paths it reads does
@@ -1141,7 +1300,23 @@ def _invalidates(muts, e, x):
         if None not in subs and subs:
             if any(kind == "bind" and pay == x for kind, pay in muts):
                 return True
-            return any(_invalidates(muts, sub, "\0") for sub in subs)
+            # the VALUE computed from the objects read matters here (len(b), b[0] + 1, ...): a change of the content of an
+            # object on, above or below a path that is read invalidates, not only a change of which object the path denotes
+            for sub in subs:
+                sp = _path(sub)
+                for kind, pay in muts:
+                    if kind in ("call", "slot"):
+                        k = min(len(pay), len(sp))
+                        if tuple(pay[:k]) == tuple(sp[:k]):
+                            return True
+                        if kind == "slot" and len(pay) >= 2 and tuple(pay[:len(pay) - 1])[:len(sp)] == tuple(sp)[:len(pay) - 1]:
+                            # slots compare by text; `[k]` vs `[j]` with name indexes may be the same slot
+                            a, b = (sp[len(pay) - 1] if len(sp) >= len(pay) else None), pay[-1]
+                            if a is None or a == b or (a.startswith("[") and b.startswith("[")):
+                                return True
+                if _invalidates(muts, sub, "\0"):
+                    return True
+            return False
     names = _names(e) | {x}
     for kind, pay in muts:
         if kind == "bind":
@@ -1254,6 +1429,36 @@ def _immutable_result(e):
     if isinstance(e, (ast.BinOp, ast.UnaryOp)):
         return _numeric(e)
     return False
+
+
+def _total(e):
+    """Evaluating e cannot raise in a type-correct program and has no effect: names, constants, + - *, comparisons,
+    boolean connectives, tuples, len()/bool()/isinstance().  Subscripts (KeyError / IndexError), attribute reads,
+    division and other calls are not total: such an expression must not become evaluated under fewer or more conditions."""
+    for n in ast.walk(e):
+        if isinstance(n, (ast.Name, ast.Constant, ast.Load, ast.Tuple, ast.Compare, ast.BoolOp, ast.And, ast.Or, ast.Not,
+                          ast.UnaryOp, ast.USub, ast.UAdd, ast.IfExp, ast.Add, ast.Sub, ast.Mult, ast.cmpop, ast.operator, ast.boolop,
+                          ast.unaryop, ast.expr_context)):
+            if isinstance(n, ast.BinOp):
+                pass
+            continue
+        if isinstance(n, ast.BinOp):
+            if isinstance(n.op, (ast.Add, ast.Sub, ast.Mult)):
+                continue
+            return False
+        if isinstance(n, ast.Call) and isinstance(n.func, ast.Name) and n.func.id in ("len", "bool", "isinstance", "float", "int", "abs") \
+                and not n.keywords:
+            continue
+        if isinstance(n, ast.Attribute) and isinstance(n.value, ast.Name):
+            continue                      # an attribute of a named object (self.items): present in a type-correct program
+        if isinstance(n, ast.Subscript) and isinstance(n.slice, ast.Slice):
+            continue                      # slicing a sequence never raises (x[1:] of an empty list is [])
+        if isinstance(n, ast.Slice):
+            continue
+        if isinstance(n, ast.Name):
+            continue
+        return False
+    return True
 
 
 _CONSUMERS = ("random.", "np.random.", "numpy.random.", "math.")
@@ -1423,6 +1628,7 @@ def propagate(fn):
     """Block-local forward substitution of pure definitions `x = e` into the statements that follow in the same block,
     until x is reassigned or something e reads may change; then dead pure stores are removed."""
     changed_any = False
+    still_evaluated = set()      # names whose definition was written into a position that is evaluated whenever it was
     for scope in [n for n in ast.walk(fn) if isinstance(n, ast.FunctionDef)]:
         captured = set()
         for n in _scope_nodes(scope):
@@ -1436,6 +1642,7 @@ def propagate(fn):
                     continue
                 x = st.targets[0].id
                 e = st.value
+                depth = [0]
                 if x in captured or not is_pure(e) or not _value_like(e) or x in _names(e):
                     continue
                 if isinstance(e, ast.Constant) and not isinstance(e.value, (int, float, str, bool, type(None))):
@@ -1448,8 +1655,17 @@ def propagate(fn):
                         continue
                 m = {x: e}
 
+                total = _total(e)
+                # evaluated once per iteration instead of once: fine for the same object / a number, and for a freshly built but
+                # equal value whose every use only consumes the value -- never for something that may be a one-shot iterator
+                stable = _immutable_result(e) or (shareable and not any(
+                    isinstance(n, ast.GeneratorExp) or (isinstance(n, ast.Call) and not _immutable_result(n)) for n in ast.walk(e)))
+
                 def push(stmts):
-                    """substitute into a statement sequence; False when the definition is dead (x or an input changed)"""
+                    """substitute into a statement sequence; False when the definition is dead (x or an input changed).
+                    Into the arms of an `if` only an expression that cannot raise may move (it would otherwise be evaluated
+                    under a condition it was not under); into a loop body only one that, in addition, yields the same
+                    object / number every time (a one-shot iterator or a fresh array evaluated per iteration is different)."""
                     nonlocal changed_any
                     for s in stmts:
                         uses = any(isinstance(n, ast.Name) and n.id == x and isinstance(n.ctx, ast.Load) for n in ast.walk(s))
@@ -1457,30 +1673,51 @@ def propagate(fn):
                             if uses:
                                 before = ast.dump(s.test)
                                 s.test = _Subst(m).visit(s.test)
-                                changed_any |= before != ast.dump(s.test)
+                                if before != ast.dump(s.test):
+                                    changed_any = True
+                                    if depth[0] == 0:
+                                        still_evaluated.add(x)
                             if _invalidates(_mutations(s.test), e, x):
                                 return False
+                            # re-evaluating a pure e inside an arm is harmless while the definition itself is still evaluated
+                            # before the `if`; the definition is only dropped when an unconditional occurrence remains
+                            depth[0] += 1
                             a_ = push(s.body)
                             b_ = push(s.orelse)
+                            depth[0] -= 1
                             if not (a_ and b_):
                                 return False
                             continue
                         hit = _invalidates(_mutations(s), e, x)
+                        if isinstance(s, ast.While) and isinstance(s.test, ast.Constant) and s.test.value is True and not hit and uses \
+                                and stable and depth[0] == 0 and s.body \
+                                and any(isinstance(n, ast.Name) and n.id == x for n in ast.walk(s.body[0])) \
+                                and not isinstance(s.body[0], (ast.If, ast.For, ast.While, ast.Try, ast.With)):
+                            still_evaluated.add(x)       # the first statement of a `while True` body always runs
                         if isinstance(s, (ast.For, ast.While, ast.Try, ast.With, ast.FunctionDef)):
+                            if isinstance(s, ast.For) and uses:
+                                before = ast.dump(s.iter)
+                                s.iter = _Subst(m).visit(s.iter)
+                                if before != ast.dump(s.iter):
+                                    changed_any = True
+                                    if depth[0] == 0:
+                                        still_evaluated.add(x)
+                                uses = any(isinstance(n, ast.Name) and n.id == x and isinstance(n.ctx, ast.Load) for n in ast.walk(s))
                             if hit:
-                                if isinstance(s, ast.For) and uses:
-                                    before = ast.dump(s.iter)
-                                    s.iter = _Subst(m).visit(s.iter)
-                                    changed_any |= before != ast.dump(s.iter)
                                 return False
                             if uses:
+                                if not stable:
+                                    return False
                                 _Subst(m).visit(s)
                                 changed_any = True
                         else:
                             if uses:
                                 before = ast.dump(s)
                                 _subst_in_simple(s, m)
-                                changed_any |= before != ast.dump(s)
+                                if before != ast.dump(s):
+                                    changed_any = True
+                                    if depth[0] == 0:
+                                        still_evaluated.add(x)
                             # common subexpression: a later definition with the same right-hand side becomes a copy of x
                             if (not uses) and isinstance(s, ast.Assign) and len(s.targets) == 1 and isinstance(s.targets[0], ast.Name) \
                                     and s.targets[0].id != x and not isinstance(e, (ast.Name, ast.Constant)) and ast.dump(s.value) == ast.dump(e) \
@@ -1504,7 +1741,8 @@ def propagate(fn):
             for st in body:
                 if isinstance(st, ast.Assign) and len(st.targets) == 1 and isinstance(st.targets[0], ast.Name) \
                         and st.targets[0].id not in loads and st.targets[0].id not in params and st.targets[0].id not in captured \
-                        and is_pure(st.value):
+                        and is_pure(st.value) and (_total(st.value) or st.targets[0].id.startswith("__")
+                                                   or st.targets[0].id in still_evaluated):
                     changed_any = True
                     continue
                 keep.append(st)
@@ -1652,6 +1890,8 @@ def commute(a, b):
     wa, wb = _writes(a), _writes(b)
     if "?" in wa or "?" in wb:
         return False
+    wa = {y for x in wa for y in _aliased(x)}
+    wb = {y for x in wb for y in _aliased(x)}
     return not (wa & (_names(b) | wb) or wb & _names(a))
 
 
@@ -1685,7 +1925,9 @@ def sort_commuting(fn):
                     continue
                 if "?" in wa or "?" in wb:
                     continue
-                if wa & (rb | wb) or wb & ra:
+                wa2 = {y for x in wa for y in _aliased(x)}
+                wb2 = {y for x in wb for y in _aliased(x)}
+                if wa2 & (rb | wb2) or wb2 & ra:
                     continue
                 if kb < ka:
                     body[i], body[i + 1] = b, a
@@ -1849,9 +2091,18 @@ _cx_counter = [0]
 def expand_comprehensions(fn):
     """`x = [e for t in it if c]` -> `x = []` + loop with `x.append(e)` (likewise sets and dicts) when the comprehension
     does not read x; comprehension variables get fresh names (they do not leak in the comprehension form and are not
-    read after the loop in the loop form of a refactoring that is equivalent)."""
+    read after the loop in the loop form of a refactoring that is equivalent).  `return <comprehension>` first binds it."""
     for owner, fld in _blocks_of(fn):
         body = getattr(owner, fld)
+        pre = []
+        for st in body:
+            if isinstance(st, ast.Return) and isinstance(st.value, (ast.ListComp, ast.SetComp, ast.DictComp)):
+                _cx_counter[0] += 1
+                t = "__ret%d" % _cx_counter[0]
+                pre.append(ast.copy_location(ast.Assign(targets=[ast.Name(id=t, ctx=ast.Store())], value=st.value), st))
+                st.value = ast.Name(id=t, ctx=ast.Load())
+            pre.append(st)
+        body[:] = pre
         new = []
         for st in body:
             v = st.value if isinstance(st, ast.Assign) and len(st.targets) == 1 and isinstance(st.targets[0], ast.Name) else None
@@ -2036,6 +2287,66 @@ def _mapping_body_ok(body, D, bound):
     return True
 
 
+def coalesce_copies(fn):
+    """`y = e; ...; x = y` in one block, y bound only there, every read of y between its definition and the copy, x neither
+    read nor written in between: y is x from the start (`x = e; ...` with y's reads written as x) and the copy disappears.
+    (This is what an inlined helper leaves behind: `__h_total = ...; total = __h_total`.)"""
+    changed = False
+    for scope in [n for n in ast.walk(fn) if isinstance(n, ast.FunctionDef)]:
+        params = {a.arg for a in scope.args.posonlyargs + scope.args.args + scope.args.kwonlyargs}
+        captured = set()
+        for n in _scope_nodes(scope):
+            if isinstance(n, (ast.FunctionDef, ast.Lambda, ast.ListComp, ast.SetComp, ast.DictComp, ast.GeneratorExp)) and n is not scope:
+                captured |= _names(n)
+        stores, loads = {}, {}
+        for n in _scope_nodes(scope):
+            if isinstance(n, ast.Name):
+                d = loads if isinstance(n.ctx, ast.Load) else stores
+                d[n.id] = d.get(n.id, 0) + 1
+        for owner, fld in _scope_blocks(scope):
+            body = getattr(owner, fld)
+            j = 0
+            while j < len(body):
+                st = body[j]
+                j += 1
+                if not (isinstance(st, ast.Assign) and len(st.targets) == 1 and isinstance(st.targets[0], ast.Name)
+                        and isinstance(st.value, ast.Name)):
+                    continue
+                x, y = st.targets[0].id, st.value.id
+                if x == y or y in params or x in captured or y in captured or stores.get(y) != 1:
+                    continue
+                k = j - 1
+                d = None
+                for i in range(k - 1, -1, -1):
+                    z = body[i]
+                    if isinstance(z, ast.Assign) and len(z.targets) == 1 and isinstance(z.targets[0], ast.Name) and z.targets[0].id == y:
+                        d = i
+                        break
+                if d is None:
+                    continue
+                between = body[d + 1:k]
+                if any(isinstance(n, ast.Name) and n.id == x for z in between for n in ast.walk(z)) or x in _names(body[d].value):
+                    continue
+                ny = sum(1 for z in between for n in ast.walk(z) if isinstance(n, ast.Name) and n.id == y and isinstance(n.ctx, ast.Load))
+                if ny + 1 != loads.get(y, 0):
+                    continue
+                if any(isinstance(z, (ast.FunctionDef, ast.ClassDef)) for z in between):
+                    continue
+                body[d].targets[0].id = x
+                for z in between:
+                    for n in ast.walk(z):
+                        if isinstance(n, ast.Name) and n.id == y:
+                            n.id = x
+                del body[k]
+                j = k
+                loads[y] = 0
+                stores[y] = 0
+                stores[x] = stores.get(x, 0)      # one store replaced by another
+                loads[x] = loads.get(x, 0) + ny
+                changed = True
+    return changed
+
+
 def merge_copies(fn):
     """`x = y` (two local names): from here to the end of the block, as long as neither is rebound, x and y are the same
     object.  When every other read of y lies in that region, those reads are written as x, which leaves y with the copy as
@@ -2188,8 +2499,24 @@ def expand_star_tuples(fn):
                     for a in n.args:
                         if isinstance(a, ast.Starred) and isinstance(a.value, ast.Name) and a.value.id in cands:
                             star_uses[a.value.id] = star_uses.get(a.value.id, 0) + 1
+                # (a, b) + t  /  t + (a, b): concatenation with a tuple display builds a new tuple of the same elements
+                if isinstance(n, ast.BinOp) and isinstance(n.op, ast.Add):
+                    for side, other in ((n.left, n.right), (n.right, n.left)):
+                        if isinstance(side, ast.Name) and side.id in cands and isinstance(cands[side.id][0].value, ast.Tuple) \
+                                and isinstance(other, ast.Tuple):
+                            star_uses[side.id] = star_uses.get(side.id, 0) + 1
             for t, (st, owner, fld) in cands.items():
                 if star_uses.get(t, 0) and star_uses[t] == loads.get(t, 0):
+                    class CC(ast.NodeTransformer):
+                        def visit_BinOp(self, n):
+                            self.generic_visit(n)
+                            if isinstance(n.op, ast.Add) and isinstance(st.value, ast.Tuple):
+                                if isinstance(n.left, ast.Name) and n.left.id == t and isinstance(n.right, ast.Tuple):
+                                    n.left = copy.deepcopy(st.value)
+                                elif isinstance(n.right, ast.Name) and n.right.id == t and isinstance(n.left, ast.Tuple):
+                                    n.right = copy.deepcopy(st.value)
+                            return n
+                    CC().visit(scope)
                     for n in ast.walk(scope):
                         if isinstance(n, ast.Call):
                             new = []
@@ -2351,18 +2678,21 @@ def canonical(fn, helpers, sigs=None, cls=None):
     split_tuples(f)
     rename_apart(f)
     mapping_loops(f)
+    _ALIAS[0] = alias_classes(f)
     for _ in range(8):
         a = forward_stores(f)
         b = propagate(f)
         c = forward_single_use(f)
         d = propagate_single_assignment_copies(f)
-        e = merge_copies(f)
+        e = merge_copies(f) | coalesce_copies(f)
         if not (a or b or c or d or e):
             break
     expand_star_tuples(f)
     _Idioms().visit(f)
     control_flow(f)
+    _ALIAS[0] = alias_classes(f)
     sort_commuting(f)
+    _ALIAS[0] = {}
     ast.fix_missing_locations(f)
     digest, _ = A.alpha_form(f)
     return digest, f
